@@ -44,6 +44,15 @@ CHECKS = {
  "C07": ("Coq proof (progress in every reachable state when cores <= cap; work conservation of acquire-only runs; refuted variant without the mutex) + T1 conformance + T3 rendezvous commands under seeded delays between token deposits, mixed-core competition, oversize rejection",
          "Deadlock freedom and work conservation are theorems over all schedules of the slot machine; rendezvous workflows make non-simultaneous execution observable as a failure on the real library, with delays injected between the individual token deposits.",
          "7 C07", ""),
+ "C16": ("Coq proof (recursive upstream collection = transitive closure on every acyclic graph; RunTo set exact and upward closed) + T1 conformance of runProcs / readyToRun / reconnect / collectUpstreamProcs / connect-disconnect + T3 with every kind of unconnected port and RunTo by name / regex / process",
+         "Closure theorems for all acyclic graphs with fuel = number of processes; the readiness check precedes every process start (skeleton fact); real workflows with one unconnected port must exit non-zero without a command or a file, RunTo runs must produce exactly the closure's tasks and files as computed by the reference evaluator.",
+         "7 C16", ""),
+ "C17": ("Coq proof on the FIFO producer/consumer transition system (bytes conserved for every schedule, payload and pipe capacity; computed witnesses for the one-slot deadlock, the audit-link race and the undrained re-run) + T1 conformance + T3 streaming pairs and chains with payloads around the pipe buffer and the history run / run again",
+         "Partial: byte conservation is a theorem over all schedules; absence of deadlock with 2n slots is covered by the correspondence runs (payload sizes 0 .. 200000, both exit orders) and the kernel's FIFO semantics is modelled, not verified; the audit-link race is a recorded finding (D12).",
+         "7 C17", "Liveness of the streaming pair under >= 2 slots is not yet a theorem."),
+ "C18": ("Coq proof about the model (one carrier per sub-stream, one task per carrier, join expansion for every length, resolvability) + T1 conformance of NewTask / createTasks + T2 join branch of formatCommand + T3 sub-streams of length 0 .. buffer+3",
+         "The executable model's join branch is proved to expand to the members in order with the separator, and is tied to the code by T2 on Task.Command and by T3 runs whose output concatenates the members through the expanded placeholder; audit Upstream keys are checked on the real records.",
+         "7 C18", ""),
 }
 
 def main():
